@@ -84,7 +84,7 @@ class BaseWorklist(list):
             File name or path to write (must include a .gwl extension)
         """
         filepath = Path(filepath)
-        assert ".gwl" in filepath.name.lower(), "The filename did not contain the .gwl extension."
+        assert filepath.suffix.lower() == ".gwl", "The filename did not have the .gwl extension."
         filepath.unlink(missing_ok=True)
         with open(filepath, "w", newline="\r\n", encoding="latin_1") as file:
             file.write("\n".join(self))
